@@ -1061,6 +1061,13 @@ def ldict_method(I, v, name, args, kwargs, node):
             ent[2] = args[1]
             v.version += 1
         return I.ldict_value(v, ent)
+    if name == "add" and isinstance(v.vty, TBool):
+        # a lazy dict with boolean values doubles as a lazily initialised set of impure elements
+        ent = I.ldict_entry(v, args[0])
+        ent[1] = z3.BoolVal(True)
+        ent[2] = SBool(z3.BoolVal(True))
+        v.version += 1
+        return NONE
     raise Unsupported(f"lazy dict method {name}")
 
 
